@@ -137,6 +137,17 @@ fn replay_one(bid: usize, scn: &J, out: &mut Box<dyn std::io::Write>) {
                     _ => w.extend_ser(ids.iter().map(|i| good_ser(i))).map(|_| ()),
                 })) { Ok(r) => r.map_err(|e| e.to_string()), Err(p) => { panicked = true; Err(p) } }
             }
+            "extend-bad" => {
+                // the good values `pre`, then a value validation rejects, then one more good value
+                let ids: Vec<String> = op[1].as_array().unwrap().iter().map(|x| x.as_str().unwrap().to_string()).collect();
+                let bad = Value::Record(vec![("a".into(), Value::Long(7)), ("b".into(), Value::Long(8))]);
+                let mut vs: Vec<Value> = ids.iter().map(|i| good_value(i)).collect();
+                vs.push(bad);
+                vs.push(good_value("a"));
+                let w = writer.as_mut().unwrap();
+                match guarded(std::panic::AssertUnwindSafe(|| if variant % 2 == 0 { w.extend(vs.clone()).map(|_| ()) } else { w.extend_from_slice(&vs).map(|_| ()) })) {
+                    Ok(r) => r.map_err(|e| e.to_string()), Err(p) => { panicked = true; Err(p) } }
+            }
             "add-meta" => {
                 let k = op[1].as_str().unwrap().to_string();
                 let w = writer.as_mut().unwrap();
@@ -245,7 +256,8 @@ fn cmd_gen(a: &Args) -> i32 {
                 8 => json!(["append-rejected"]),
                 9 => { ever_header = true; json!(["append-encode-fails"]) }
                 10 | 11 => { ever_header = true; json!(["flush"]) }
-                12 | 13 => { ever_header = true; let k = 1 + rng.below(4); json!(["extend", (0..k).map(|_| *rng.pick(&ids)).collect::<Vec<_>>(), "ok"]) }
+                12 => { ever_header = true; let k = 1 + rng.below(4); json!(["extend", (0..k).map(|_| *rng.pick(&ids)).collect::<Vec<_>>(), "ok"]) }
+                13 => { let k = rng.below(3); if k > 0 { ever_header = true; } json!(["extend-bad", (0..k).map(|_| *rng.pick(&ids)).collect::<Vec<_>>()]) }
                 14 | 15 => json!(["add-meta", *rng.pick(&["k1", "k2", "k3"]), if ever_header { "err" } else { "ok" }]),
                 16 => { ever_header = false; json!(["reset"]) }
                 17 => { open = false; json!(["close", "drop"]) }
